@@ -297,7 +297,8 @@ def run(ctx):
     for st_ in ('PendingConnack', 'Connected'):
         r_ = prims.reaches_ret(sqa, [r'^\(self\.state == ProtocolStateType::%s\{\}\)$' % st_], 'Ok')
         e_ = prims.edge_nodes_matching(sqa, [r'^\(self\.state == ProtocolStateType::%s\{\}\)$' % st_])
-        st_ok = st_ok and bool(e_) and bool(dqc) and any(dqc[0].bb in sqa.reach([x]) for x in e_)
+        oth_ = prims.edge_nodes_matching(sqa, [r'^\(self\.state == ProtocolStateType::(?!%s)\w+\{\}\)$' % st_])
+        st_ok = st_ok and bool(e_) and bool(dqc) and any(dqc[0].bb in sqa.reach([x], avoid=oth_) for x in e_)
     ctx.ob(st_ok, 'the service loop body (dequeue, encode) is entered in PendingConnack and in Connected (each state alone suffices)', 'service-loop|states', loc=sqa.loc(), rule='R-C07-3')
     enc_ = sqa.calls('Encoder::encode')
     fwc = sqa.calls('ProtocolState::on_current_operation_fully_written')
@@ -314,3 +315,8 @@ def run(ctx):
     cs_none = [(short(m.view.path), m) for f_, m in prims.field_mutations(F, PS, P) if f_ == 'current_settings' and (m.kind == 'assign' or m.method == 'take') and show(m.rv) == 'Option::None{}']
     ctx.ob([n for n, m in cs_none] == ['ProtocolState::reset'], 'the negotiated settings (with the server-assigned client id the next CONNECT reuses) are forgotten only by reset, never by a new connection (%s)' % [n for n, m in cs_none],
            'clientid|settings-persist', loc=ctx.fn('ProtocolState::reset').loc(), rule='R-C07-5')
+    # ---- added after the mutation sweep: the configured values this property starts from reach the options (builder setters)
+    from . import shared as _sh
+    _ns = _sh.builder_setters(ctx, lambda b, m: b == 'ConnectOptionsBuilder' or (b in ('TokioClientBuilder', 'ThreadedClientBuilder') and m in ('with_connect_options', 'with_client_options')) or (b == 'MqttClientOptionsBuilder' and m == 'with_connect_timeout'), 'R-C07-7', 'the CONNECT reflects the configured connect options; the establishment deadline is the configured connect timeout')
+    if ctx.config == 'all':
+        ctx.floor(_ns, 17, 'builder setters this property depends on')
